@@ -78,6 +78,21 @@ def artefacts_file(path, workdir, tag):
     return out
 
 
+def artefacts_mapping(case):
+    """Mapping2D3D over a drawn pair list (multiplets, conflicts, duplicates) on a corpus structure"""
+    from rnapolis.tertiary import Mapping2D3D
+    from rnaverif.props import c06
+
+    s3, pairs2d = c06.pairs_for_case(case)
+    if s3 is None:
+        return {"skipped": "1"}
+    m = Mapping2D3D(s3, pairs2d, [], case["find_gaps"])
+    out = {"bpseq": str(m.bpseq), "dot_bracket": m.dot_bracket, "extended": m.extended_dot_bracket,
+           "all_dot_brackets": "\n--\n".join(m.all_dot_brackets), "base_pairs": repr([(str(b.nt1_3d), str(b.nt2_3d), b.lw.value) for b in m.base_pairs])}
+    out["n_all"] = len(m.all_dot_brackets)
+    return out
+
+
 def artefacts_bpseq(text):
     from rnapolis.common import BpSeq
 
@@ -109,6 +124,8 @@ def main():
             try:
                 if inp["kind"] == "file":
                     arts = artefacts_file(inp["path"], workdir, f"{os.getpid()}_{rep}")
+                elif inp["kind"] == "mapping":
+                    arts = artefacts_mapping(inp["case"])
                 else:
                     arts = artefacts_bpseq(inp["text"])
             except Exception as exc:  # reported by the parent as a crash discrepancy
